@@ -739,6 +739,16 @@ func init() {
 		if err := json.Unmarshal(raw, &c); err != nil {
 			return nil, err
 		}
+		// a manager that was created first and is closed before the others start: nothing the others need (clocks, tickers,
+		// process-wide state) may have gone with it
+		preCfg := manager.VerifBootstrap("default", "cluster.local", &v3core.Node{Id: "node-first"}, &manager.XDSServerConfig{
+			SvrAddr: "fake", SvrName: "fake", NDSNotRequired: true, LDSNotRequired: true, FetchXDSTimeout: time.Second,
+		})
+		if pre, err := manager.VerifNewManager(preCfg, newFakeADS(), true, manager.Option{F: func(o *manager.Options) { o.DumpPath = os.DevNull }}); err == nil {
+			time.Sleep(300 * time.Millisecond)
+			pre.Close()
+			time.Sleep(50 * time.Millisecond)
+		}
 		results := make([]interface{}, len(c.Scenarios))
 		done := make(chan int, len(c.Scenarios))
 		for i := range c.Scenarios {
